@@ -563,21 +563,6 @@ func (s *Scanner) Scan() SyntaxKind {
 			s.token = SK_Slash
 			return s.token
 		case '0':
-			if s.pos+2 < s.end {
-				if tar := s.peekCheck(1, func(ch rune) bool { return ch == 'x' || ch == 'X' }); tar >= 0 {
-					s.pos = tar
-					s.tokenValue = s.scanMinimumNumberOfHexDigits(1, false)
-					if len(s.tokenValue) == 0 {
-						s.error(M_Hexadecimal_digit_expected)
-						s.tokenValue = "0"
-					}
-					s.tokenValue = "0x" + s.tokenValue
-					s.tokenFlags |= TF_HexSpecifier
-					// s.token = s.checkNumberSuffix()
-					// return s.token
-					return SK_NumberLiteral
-				}
-			}
 			// This fall-through is a deviation from the EcmaScript grammar. The grammar says that a leading zero
 			// can only be followed by an octal digit, a dot, or the end of the number literal. However, we are being
 			// permissive and allowing decimal digits of the form 08* and 09* (which many browsers also do).
